@@ -4,6 +4,8 @@ import Driver.C01
 import Rpki.Model.SigObj
 import Rpki.Model.Sha
 import Rpki.Model.Manifest
+import Rpki.Model.Roa
+import Rpki.Gen.Consts
 namespace Driver.C02
 open Driver Rpki.Chain Rpki.Cert Rpki.SigObj
 
@@ -38,15 +40,19 @@ def modelLine (ty : String) (now : Int) (crlOk : Bool) (o : ObjRaw) (issuer : RC
       (Rpki.Manifest.decodeContent o.obj.content).isSome && (validateAt digest o.obj issuer now).isSome
     else if ty = "sop" then (validateAt digest o.obj issuer now).isSome && crlOk
     else if ty = "roa" then
-      match o.extra.splitOn ";" with
-      | [_, r4, r6] =>
-        match parseRanges r4, parseRanges r6 with
-        | some r4, some r6 => roaProcess digest o.obj r4 r6 issuer now crlOk
+      -- the address ranges come from the model's own reading of the eContent, not from the generator's facts
+      match Rpki.Roa.decodeContent o.obj.content with
+      | none => false
+      | some c =>
+        match Rpki.Roa.iter c.v4, Rpki.Roa.iter c.v6 with
+        | some l4, some l6 =>
+          let r4 : List RoaAddr := l4.map fun a => ⟨a.addr / 2 ^ 96, Rpki.IpDer.toMax a.addr a.len / 2 ^ 96⟩
+          let r6 : List RoaAddr := l6.map fun a => ⟨a.addr, Rpki.IpDer.toMax a.addr a.len⟩
+          roaProcess digest o.obj r4 r6 issuer now crlOk
         | _, _ => false
-      | _ => false
     else if ty = "aspa" then
-      match o.extra.toNat? with
-      | some c => aspaProcess digest o.obj c issuer now crlOk
+      match Rpki.Roa.decodeAspa Rpki.Consts.aspaObjMaxLen o.obj.content with
+      | some a => aspaProcess digest o.obj a.customer issuer now crlOk
       | none => false
     else false
   if ok then "ok" else "err"
@@ -90,6 +96,10 @@ def oracle (ty : String) (now : Int) (crlOk : Bool) (o : ObjRaw) (raws : List Dr
     Option String :=
   if impl = "panic" then some "validation panicked"
   else if impl ≠ "ok" then none
+  else if ty = "roa" ∧ (Rpki.Roa.decodeContent o.obj.content).isNone then
+    some "ROA accepted although its eContent is not a well-formed RouteOriginAttestation (version, families, lengths and maxLength within the family)"
+  else if ty = "aspa" ∧ (Rpki.Roa.decodeAspa Rpki.Consts.aspaObjMaxLen o.obj.content).isNone then
+    some "ASPA accepted although its eContent is not a well-formed ASProviderAttestation (version 1, providers ascending, distinct, without the customer)"
   else
     let ee := o.obj.ee
     -- digest attribute
